@@ -30,7 +30,7 @@ def confirm(item):
     subprocess.check_call(["git", "-C", "/repo", "worktree", "add", "-q", "--detach", wt, "HEAD"])
     res = {"applies": False, "builds": False, "suite_passes": False, "demo": "none"}
     try:
-        race = sid == "S17"
+        race = sid[1:] == "17"
         dst = runpat = pkgdir = None
         if demo and os.path.exists(demo):
             src = open(demo).read()
@@ -73,7 +73,7 @@ def main():
     if "--only" in sys.argv:
         only = set(sys.argv[sys.argv.index("--only") + 1].split(","))
     items = []
-    for d in sorted(glob.glob(os.path.join(base, "S??"))):
+    for d in sorted(glob.glob(os.path.join(base, "[ST]??"))):
         sid = os.path.basename(d)
         if only and sid not in only:
             continue
